@@ -28,6 +28,8 @@ pub unsafe extern "C" fn clock_gettime(clk: libc::clockid_t, ts: *mut libc::time
 
 /// Set the virtual time of this thread (ns since the virtual base); `None` unsets it.
 pub fn set(ns: Option<u64>) {
+    // keep the interposed symbol alive in every binary that links this library
+    std::hint::black_box(clock_gettime as *const () as usize);
     VNOW.with(|v| v.set(ns.map_or(0, |n| BASE_NS + n)));
 }
 
